@@ -28,7 +28,7 @@ ASSUMPTIONS = [
     "'after shutdown() returns' is the instant the awaiting task resumes; events in the same instant but earlier in the log are not counted",
     "tasks / timers created by the harness (user-call runners, the scenario driver) are excluded by identity; every other live task or pending TimerHandle belongs to the client",
 ]
-PROBES = ["c15.during_connect_latency", "c15.during_backoff", "c15.mid_handshake", "c15.message_pending", "c15.at_heartbeat", "c15.after_fault",
+PROBES = ["c15.as_heartbeat_timeout_reset_closes", "c15.just_before_reconnection_completes", "c15.during_connect_latency", "c15.during_backoff", "c15.mid_handshake", "c15.message_pending", "c15.at_heartbeat", "c15.after_fault",
           "c15.reinit", "c15.reinit_changed_installation", "c15.socket_class", "c15.shutdown_twice", "c15.quick_reinit_with_pending", "c15.heartbeat_after_reinit", "c15.during_slow_reset", "c15.periodic_job_due_with_full_buffer", "c15.after_reconnection_dead_on_arrival", "c15.during_stalled_handshake", "c15.during_blocked_write", "c15.heartbeat_during_slow_close"]
 
 
@@ -102,6 +102,17 @@ def generate(rng, index: int, tier: str) -> dict:
             tl.append({"at": t_s + rng.choice([3.0, 12.0, 40.0]), "op": "net.rst"})
             tl.append({"at": t_s + 50.0, "op": "net.stall", "on": False})
             info["heartbeat_during_slow_close"] = True
+        elif not sock and rng.random() < 0.3:
+            # the console stops answering heartbeats: 330 s after the last answer the client resets the connection on its own,
+            # and shutdown() is called in the loop pass in which that reset closes the transport
+            tl.append({"at": 6.0 + 6 * 2 * lat, "op": "console.mute", "kinds": ["version_request"]})
+            info["stop_at_client_close"] = rng.choice(["before", "after", "timer", "timer", "timer"])
+            info["t_arm"] = 320.0
+            t_s = 331.0
+            if info["stop_at_client_close"] == "timer":
+                # loop passes take a little time in these runs, so "a few passes before / after the deadline" is an instant
+                knobs["iter_cost"] = 2.0**-16
+                info["stop_delta"] = rng.randint(-8, 3) * 2.0**-16
     else:
         fates = [{"kind": "accept", "latency": 0.0}]
         t_s = G.dyadic(rng, 6.0, 20.0)
@@ -151,6 +162,12 @@ def generate(rng, index: int, tier: str) -> dict:
                 if x["op"] == "net.rst_next_accept":
                     x["at"] = t_s - gap - G.EPS
             info["dead_on_arrival"] = True
+        if not info.get("dead_on_arrival") and rng.random() < 0.3:
+            # shutdown() / close() is called a few loop passes before the reconnection attempt that the fault set off
+            # completes: the attempt comes up in the middle of the shutdown sequence (between two of its awaits)
+            recon = rng.choice([[{"kind": "accept", "latency": rng.choice([0.0, 0.5, 3.0])}], [{"kind": "refuse", "latency": 0.0}, {"kind": "accept", "latency": rng.choice([0.0, 0.5])}]])
+            info["stop_before_accept"] = rng.choice([0, 1, 2, 3, 4, 5, 6, 7, 8, 10, 12])
+            info["t_arm"] = t_s - gap - G.EPS
         tl.append({"at": t_s - gap - G.EPS, "op": "net.fates", "fates": recon})
         if kind == "write":
             tl.append({"at": t_s - gap - G.EPS, "op": "net.fail_write", "nth": rng.choice([1, 2, 3]), "err": "EPIPE"})
@@ -182,7 +199,20 @@ def generate(rng, index: int, tier: str) -> dict:
                 tl.append({"at": t_s - 0.5 + i * G.TICK, "op": "user.api", "target": ["at"], "call": "check_for_updates", "args": {}})
     knobs["fates"] = fates
     stop_op = "user.close" if sock else "user.shutdown"
-    tl.append({"at": t_s, "op": stop_op, "yields": rng.choice([2, 3, 4, 5, 6, 7, 8, 10]) if info.get("last_step") else rng.choice([0, 0, 1, 2, 3, 4, 5, 6, 8]), "stop": True})
+    stop_step = {"at": t_s, "op": stop_op, "yields": rng.choice([2, 3, 4, 5, 6, 7, 8, 10]) if info.get("last_step") else rng.choice([0, 0, 1, 2, 3, 4, 5, 6, 8]), "stop": True}
+    if "stop_at_client_close" in info:
+        if info["stop_at_client_close"] == "timer":
+            # ... or at the very instant the client's heartbeat deadline (a loop timer) falls due, give or take a few loop passes
+            tl.append({"at": info.pop("t_arm"), "op": "sched.at_timer", "lo": 329.0, "hi": 332.0, "delta": info.get("stop_delta", 0.0), "then": stop_step})
+        else:
+            tl.append({"at": info.pop("t_arm"), "op": "net.at_client_close", "order": info["stop_at_client_close"], "then": stop_step})
+        t_s += 5.0
+    elif "stop_before_accept" in info:
+        # the call is made when the attempt is about to complete (at most 5.5 s after the fault); what follows is planned after that
+        tl.append({"at": info.pop("t_arm"), "op": "net.before_accept", "passes": info["stop_before_accept"], "then": stop_step})
+        t_s += 6.0
+    else:
+        tl.append(stop_step)
     if rng.random() < 0.15:
         tl.append({"at": t_s + rng.choice([0.0, G.EPS, 1.0]), "op": stop_op, "second": True})
         info["twice"] = True
@@ -313,6 +343,10 @@ def execute(sc: dict) -> dict:
         probes["c15.during_stalled_handshake"] = 1
     if info.get("dead_on_arrival"):
         probes["c15.after_reconnection_dead_on_arrival"] = 1
+    if "stop_before_accept" in info:
+        probes["c15.just_before_reconnection_completes"] = 1
+    if "stop_at_client_close" in info:
+        probes["c15.as_heartbeat_timeout_reset_closes"] = 1
     if info.get("poll_with_full_buffer"):
         probes["c15.periodic_job_due_with_full_buffer"] = 1
     if info.get("heartbeat_during_slow_close"):
@@ -345,7 +379,9 @@ def execute(sc: dict) -> dict:
     if not V and not overlapping_unfinished:
         made = {e[3]["link"]: e[0] for e in ev if e[2] == "conn.made" and e[0] < seq_ret}
         t_over = next((e[1] for e in ev if e[0] == seq_ret), stop["t_ret"])  # the instant the (merged) operation was over
-        lost = {e[3]["link"] for e in ev if e[2] == "conn.lost" and e[1] <= t_over}
+        # (in runs whose loop passes take time an "instant" is a few dozen passes long, as it may be in any other run)
+        slack = 64 * float(sc.get("knobs", {}).get("iter_cost") or 0.0)
+        lost = {e[3]["link"] for e in ev if e[2] == "conn.lost" and e[1] <= t_over + slack}
         still = sorted(l for l in made if l not in lost)
         if still:
             V.append(viol("C15.open_when_shutdown_returned", {"links": still, "returned_at": stop["t_ret"], "where": info.get("where"),
